@@ -275,6 +275,12 @@ where
             // Stop the write
             self.wait_not_busy(Delay::new_write())?;
             self.write_byte(STOP_TRAN_TOKEN)?;
+            // The card answers the stop token with busy while it finishes
+            // programming - possibly only from the second byte on, and for as
+            // long as after any other data block. Wait for it here, with the
+            // write timeout, rather than leaving it to the next command.
+            let _ = self.read_byte()?;
+            self.wait_not_busy(Delay::new_write())?;
         }
         Ok(())
     }
